@@ -6,6 +6,9 @@
 From Coq Require Import String List Arith.
 From FA.Model Require Import Heap Stream.
 From FA.Proofs Require Import HeapFacts StreamFrame StreamExamples.
+From FA.Gen Require TablesCopy.
+From FA.Model Require CopyTree.
+From FA.Proofs Require CopyTreeFacts.
 Import ListNotations.
 Open Scope list_scope.
 Open Scope nat_scope.
@@ -45,6 +48,54 @@ Print Assumptions remove_preserves_input.
 Theorem live_mono : forall ops i j s, i <= j -> live (run_prefix ops i) s -> live (run_prefix ops j) s.
 Proof. exact StreamFrame.live_mono. Qed.
 Print Assumptions live_mono.
+
+(* ---------- a lambda handed over as an ast object (parse_as_ast's copy, F52/F57; Model/CopyTree.v) ----------
+   The stream model takes the processed lambda as an input; what protects the CALLER's tree - and with it every stream that was
+   built from the same tree, or from whose query the tree was taken - from the passes that edit their input in place is the copy
+   util_ast._copy_of_tree makes first.  Node objects are identities; [attached t] are the objects at or below a node that carries
+   a dataset, an executor or query metadata (another stream's nodes, deliberately shared). *)
+Theorem lambda_copy_is_the_same_query : forall t n,
+  CopyTree.erase (fst (CopyTree.copy t n)) = CopyTree.erase t /\ CopyTree.attrs_pre (fst (CopyTree.copy t n)) = CopyTree.attrs_pre t.
+Proof. exact CopyTreeFacts.copy_same_shape. Qed.
+Print Assumptions lambda_copy_is_the_same_query.
+
+Theorem lambda_copy_objects_are_new_or_another_streams : forall t n i,
+  In i (CopyTree.ids (fst (CopyTree.copy t n))) -> (n <= i < snd (CopyTree.copy t n)) \/ In i (CopyTree.attached t).
+Proof. exact CopyTreeFacts.copy_new_or_attached. Qed.
+Print Assumptions lambda_copy_objects_are_new_or_another_streams.
+
+Theorem lambda_copy_isolates_the_callers_tree : forall t n,
+  (forall i, In i (CopyTree.ids t) -> i < n) ->
+  forall i, In i (CopyTree.ids t) -> ~ In i (CopyTree.attached t) -> ~ In i (CopyTree.ids (fst (CopyTree.copy t n))).
+Proof. exact CopyTreeFacts.copy_isolates. Qed.
+Print Assumptions lambda_copy_isolates_the_callers_tree.
+
+(* the test F52 shipped with (ANY non-field attribute keeps the node) hands the caller's own default-filled call on: refuted *)
+Theorem any_attribute_keep_test_refuted :
+  In 3 (CopyTree.ids CopyTreeFacts.ex_lambda) /\ ~ In 3 (CopyTree.attached CopyTreeFacts.ex_lambda) /\
+  In 3 (CopyTree.ids (fst (CopyTree.copy_any CopyTreeFacts.ex_lambda 9))) /\
+  In 7 (CopyTree.ids (fst (CopyTree.copy_any CopyTreeFacts.ex_lambda 9))).
+Proof. exact CopyTreeFacts.any_attribute_test_refuted. Qed.
+
+(* the attribute names: what the copy looks for is exactly what a dataset root and a QMetaData node carry *)
+Example copy_tables_pinned :
+  In TablesStream.executor_attr_name TablesCopy.stream_node_attributes /\
+  incl TablesCopy.dataset_node_attributes TablesCopy.stream_node_attributes /\
+  incl TablesCopy.qmetadata_node_attributes TablesCopy.stream_node_attributes /\
+  length TablesCopy.stream_node_attributes = 1 + length TablesCopy.dataset_node_attributes + length TablesCopy.qmetadata_node_attributes /\
+  existsb (String.eqb "_old_ast"%string) TablesCopy.stream_node_attributes = false.
+Proof.
+  split; [vm_compute; tauto|]. split; [intros x Hx; vm_compute in Hx; vm_compute; tauto|].
+  split; [intros x Hx; vm_compute in Hx; vm_compute; tauto|]. split; reflexivity.
+Qed.
+
+Example lambda_copy_examples :
+  ((forall i, In i (CopyTree.ids CopyTreeFacts.ex_lambda) -> i < 9) /\ CopyTree.attached CopyTreeFacts.ex_lambda = [] /\
+   CopyTree.ids (fst (CopyTree.copy CopyTreeFacts.ex_lambda 9)) = [9; 10; 11; 12; 13; 14; 15; 16; 17] /\
+   CopyTree.erase (fst (CopyTree.copy CopyTreeFacts.ex_lambda 9)) = CopyTree.erase CopyTreeFacts.ex_lambda) /\
+  (CopyTree.attached CopyTreeFacts.ex_query_in_lambda = [3; 4; 5] /\
+   CopyTree.ids (fst (CopyTree.copy CopyTreeFacts.ex_query_in_lambda 6)) = [6; 7; 8; 3; 4; 5]).
+Proof. split; [exact CopyTreeFacts.copy_of_processed_lambda | exact CopyTreeFacts.copy_keeps_other_streams_nodes]. Qed.
 
 (* the tables the model reads from the source: the attribute name, and that every operator node gets the AST of
    the stream it is applied to (or of the stream the callbacks returned) as its FIRST argument *)
